@@ -182,6 +182,20 @@ def prepare_stimulus_stream(res, rng, n):
                 hist.append(('prepare', w.name, v))
             sim.clk(1)
             hist.append(('clk', 1))
+            if ok and t % 2 == 1:
+                # a clock call that advances no cycle still settles the combinational logic for inputs changed with put()
+                for w in ins:
+                    v = r.bits(w.getWidth())
+                    w.put(v)
+                    hist.append(('put', w.name, v))
+                sim.clk(0)
+                hist.append(('clk', 0))
+                ok = refixpoint_oracle(res, sysobj, dict(sm, history=list(hist)), 'after clk(0)')
+                for w in ins:
+                    w.prepare(w.get())
+                sim.clk(1)
+                hist.append(('clk', 1))
+                continue
             if ok:
                 ok = refixpoint_oracle(res, sysobj, dict(sm, history=list(hist)), 'after clk()')
                 for w in ins:
@@ -366,7 +380,7 @@ def main(res, tier, rng, replay):
         # every fifth design spreads its leaves over several clock domains (gated drivers on containers): combinational paths
         # cross the domains and must be ordered like any other path
         plan = G.random_plan(r, size, seq_ratio=(1, 6), wmax=r.choice([1, 3, 8]),
-                             kinds=COMB_KINDS + ['Reg', 'Sequence'], n_domains=(r.fork('nd').randint(1, 3) if i % 5 == 4 else 0))
+                             kinds=COMB_KINDS + ['Reg', 'Sequence'], n_domains=(r.fork('nd').randint(1, 3) if i % 5 >= 3 else 0))
         ring = 0
         if i % 3 == 2:
             G.register_inputs(plan)
